@@ -328,6 +328,7 @@ class Pair:
                          deep=deep, results=results, model=model, state_field=state_field,
                          listeners=listeners)
         self.steps = 0
+        self.last = None
 
     def construct(self):
         e = self.ref.construct()
